@@ -22,6 +22,7 @@ import shutil
 import subprocess
 import sys
 import tempfile
+import time
 
 import common
 from common import Check, coq_bool, coq_list, coq_Z, parse_coq_value, parse_eval_outputs, run_impl
@@ -64,11 +65,11 @@ class Gen:
 
     def ops(self, max_ops, max_prod=4):
         rng = self.rng
-        pids = rng.sample(PIDS, rng.randint(1, max_prod))
-        nops = rng.randint(1, max_ops)
+        pids = rng.sample(PIDS, rng.choice([1, 2, 2, 3, max_prod, rng.randint(1, max_prod)]))
+        nops = rng.randint(1, max_ops) if rng.random() < 0.4 else max(1, max_ops - rng.choice([0, 0, 1, 2, 3]))
         opened = set()
         ops = []
-        p_abort = rng.choice([0.2, 0.5, 0.5, 0.8])
+        p_abort = rng.choice([0.35, 0.5, 0.65, 0.8])
         for _ in range(nops):
             r = rng.random()
             if r < 0.48:
@@ -76,7 +77,7 @@ class Gen:
                 ops.append(self.data(p, True))
                 opened.add(p)
             elif r < 0.76:
-                if opened and rng.random() < 0.8:
+                if opened and rng.random() < 0.88:
                     p = rng.choice(sorted(opened))
                 else:
                     p = rng.choice(pids)          # often a solitary marker
@@ -106,6 +107,14 @@ def make_idx(log, rng, iso, f, resp, mode=None):
     end = (log.batches[resp[-1]].last + 1) if resp else f
     u = end + (rng.choice([0, 0, 1, 3, 1000]) if mode is None else mode)
     idx = log.kafka_index(f, u)
+    if rng.random() < 0.3:
+        # after cleaning, Kafka keeps the index entry of an aborted transaction only while a batch
+        # of it is left: entries of transactions without a batch in the answer may be missing
+        bs = [log.batches[i] for i in resp]
+        last_of = {(p, fo): la for (p, fo, la, c) in log.done if not c}
+        idx = [e for e in idx
+               if any(b.txn and not b.ctl and b.pid == e[0] and e[1] <= b.base < last_of[(e[0], e[1])]
+                      for b in bs) or rng.random() < 0.5]
     rng.shuffle(idx)
     if idx and rng.random() < 0.1:
         idx.append(list(rng.choice(idx)))        # a repeated entry changes nothing
@@ -298,7 +307,7 @@ def build_compiled(ck):
 
 
 # ------------------------------------------------------------------------------------ the run
-def impl_sharded(payload_logs, consume, env, pythonpath=None, nshards=None):
+def impl_sharded(payload_logs, consume, env, pythonpath=None, nshards=None, wild=()):
     nshards = nshards or common.NPROC
     n = len(payload_logs)
     nshards = max(1, min(nshards, (n + 19) // 20))
@@ -311,6 +320,7 @@ def impl_sharded(payload_logs, consume, env, pythonpath=None, nshards=None):
         pl = {"logs": chunks[i]}
         if i == 0:
             pl["consume"] = consume
+            pl["wild"] = list(wild)
         return run_impl("c08_impl.py", pl, timeout=1500, env=e)
 
     with cf.ThreadPoolExecutor(max_workers=nshards) as ex:
@@ -319,7 +329,8 @@ def impl_sharded(payload_logs, consume, env, pythonpath=None, nshards=None):
     for i, r in enumerate(res):
         for j, lo in enumerate(r["logs"]):
             logs[i + j * nshards] = lo
-    return {"logs": logs, "consume": res[0].get("consume", []), "classes": res[0]["classes"],
+    return {"logs": logs, "consume": res[0].get("consume", []), "wild": res[0].get("wild", []),
+            "classes": res[0]["classes"],
             "fetcher_file": res[0]["fetcher_file"]}
 
 
@@ -341,10 +352,19 @@ def run(ck: Check):
         "multi-fetch sequence; distinct by (operations, level, offset, cut, index); non-trivial when the answer "
         "contains a transactional or control batch or starts inside a batch")
 
-    # ---- (1) proofs over the regenerated unit
-    ok_t, _rep = ck.regenerate(["ConsumeAborted"])
-    ok_p, _out = ck.coq_props("C08")
-    ck.log(f"translation ok={ok_t}, proofs ok={ok_p}")
+    # ---- (1) proofs over the regenerated unit (runs while the real code is being exercised)
+    def proofs():
+        ok_t, _rep = ck.regenerate(["ConsumeAborted"])
+        ok_p, _out = ck.coq_props("C08")
+        ck.log(f"translation ok={ok_t}, proofs ok={ok_p}  [{time.time() - ck.t0:.1f}s]")
+        ok_m = ok_t and ok_p
+        if ok_t and not ok_p:
+            # a proof no longer checks: the executable model may still build — keep running it
+            ok_m, _o = ck.coq_make(["model/C08_Log.vo"])
+        return ok_t, ok_p, ok_m
+
+    pool = cf.ThreadPoolExecutor(max_workers=2)
+    fut_proofs = pool.submit(proofs)
 
     # ---- inputs
     n_logs = ck.n(500, 20000)
@@ -366,11 +386,37 @@ def run(ck: Check):
     for _ in range(n_logs):
         ops = gen.ops(rng.choice([6, 10, 14, 20]), 4)
         log = Log(ops)
-        entries.append((ops, log, gen_cases(log, rng, False), gen_seqs(log, rng, 2), False))
+        entries.append((ops, log, gen_cases(log, rng, False), gen_seqs(log, rng, ck.n(1, 2)), False))
     consume_cases = []
     for _ in range(ck.n(150, 1500)):
         q = [[rng.choice(PIDS), rng.randint(0, 12)] for _ in range(rng.randint(0, 6))]
         consume_cases.append({"q": q, "o": rng.randint(-1, 13)})
+
+    # arbitrary (also ill-formed) batch lists and indexes: model vs real only, no monitor
+    wild = []
+    for _ in range(ck.n(300, 5000)):
+        bs = []
+        o = rng.randint(0, 5)
+        wt = 5000
+        for _b in range(rng.randint(0, 6)):
+            n = rng.randint(1, 3)
+            ctl = rng.random() < 0.35
+            if rng.random() < 0.15:
+                o = max(0, o - rng.randint(1, 4))        # overlapping / out-of-order batches
+            if ctl:
+                recs = [[o + d, rng.choice([0, 0, 1, 1, 2, 65536, 65537])] for d in range(rng.choice([0, 1, 1, 1, 2]))]
+            else:
+                recs = []
+                for d in range(n):
+                    if rng.random() < 0.7:
+                        recs.append([o + d, wt])
+                        wt += 1
+            bs.append({"base": o, "last": o + n - 1, "pid": rng.choice([-1, 0, 1, 2]), "txn": rng.random() < 0.6,
+                       "ctl": ctl, "recs": recs})
+            o += n + rng.choice([0, 0, 0, 2])
+        idx = [[rng.choice([-1, 0, 1, 2]), rng.randint(0, max(1, o))] for _e in range(rng.randint(0, 4))]
+        wild.append({"batches": bs, "iso": rng.choice([RC, RC, RU]), "f": rng.randint(0, max(1, o)),
+                     "idx": idx if rng.random() < 0.9 else None})
 
     hist = {"producers": {}, "ops": {}, "aborted_txns": {}, "committed_txns": {}, "open_txns": {},
             "solitary_markers": {}, "empty_batches": {}, "dropped_batches": {}, "gzip_batches": {}}
@@ -396,44 +442,82 @@ def run(ck: Check):
     payload = [{"ops": ops, "cases": cases, "seqs": seqs} for (ops, _l, cases, seqs, _e) in entries]
 
     # ---- the real code (pure-Python record classes; compiled ones in the thorough tier)
-    variants = [("pure-python", {"AIOKAFKA_NO_EXTENSIONS": "1"}, None)]
-    cy_dir = None
-    if ck.thorough or os.environ.get("VERIF_C08_COMPILED"):
-        cy_dir = build_compiled(ck)
-        if cy_dir:
-            variants.append(("compiled-from-current-pyx", {"AIOKAFKA_NO_EXTENSIONS": ""}, cy_dir))
+    def real_runs():
+        variants = [("pure-python", {"AIOKAFKA_NO_EXTENSIONS": "1"}, None)]
+        cy_dir = None
+        if ck.thorough or os.environ.get("VERIF_C08_COMPILED"):
+            cy_dir = build_compiled(ck)
+            if cy_dir:
+                variants.append(("compiled-from-current-pyx", {"AIOKAFKA_NO_EXTENSIONS": ""}, cy_dir))
+            else:
+                ck.notes.append("compiled record classes could not be built; only the pure-Python classes were exercised")
         else:
-            ck.notes.append("compiled record classes could not be built; only the pure-Python classes were exercised")
-    else:
-        ck.notes.append("quick tier: real PartitionRecords exercised with the pure-Python record classes only "
-                        "(thorough also compiles the .pyx twins into a temp dir)")
-    results = {}
-    try:
-        for name, env, pp in variants:
-            results[name] = impl_sharded(payload, consume_cases, env, pythonpath=pp)
-            ck.log(f"real code [{name}] classes={results[name]['classes']}")
-            if name.startswith("compiled") and not any("_crecords" in c for c in results[name]["classes"]):
-                ck.obligation("correspondence:compiled-classes-loaded", False, str(results[name]["classes"]))
-    finally:
-        if cy_dir:
-            shutil.rmtree(cy_dir, ignore_errors=True)
-    real_main = results["pure-python"]
+            ck.notes.append("quick tier: real PartitionRecords exercised with the pure-Python record classes only "
+                            "(thorough also compiles the .pyx twins into a temp dir)")
+        results = {}
+        try:
+            for name, env, pp in variants:
+                results[name] = impl_sharded(payload, consume_cases, env, pythonpath=pp,
+                                             nshards=max(2, common.NPROC // 2), wild=wild)
+                ck.log(f"real code [{name}] classes={results[name]['classes']}  [{time.time() - ck.t0:.1f}s]")
+                if name.startswith("compiled") and not any("_crecords" in c for c in results[name]["classes"]):
+                    ck.obligation("correspondence:compiled-classes-loaded", False, str(results[name]["classes"]))
+        finally:
+            if cy_dir:
+                shutil.rmtree(cy_dir, ignore_errors=True)
+        return results
 
-    # ---- the model inside Coq (same operations; sequences follow the indexes the broker twin sent)
+    fut_real = pool.submit(real_runs)
+
+    # ---- the model inside Coq: same operations; a sequence is given the fetch offsets and indexes
+    # that the broker twin sends along the reference trajectory (next fetch = end of the last batch
+    # returned) — the real run follows its own next_fetch_offset and must arrive at the same ones
     coq_entries = []
-    for (ops, log, cases, seqs, _e), lo in zip(entries, real_main["logs"]):
+    for (ops, log, cases, seqs, _e) in entries:
         sq = []
-        for sdef, steps in zip(seqs, lo["seqs"]):
-            sq.append((sdef["iso"], sdef["f"], [(st["k"], st["idx"]) for st in steps]))
+        for sdef in seqs:
+            f = sdef["f"]
+            cuts = []
+            for st in sdef["steps"]:
+                resp = log.response(log.bound(sdef["iso"]), f, st["k"])
+                end = (log.batches[resp[-1]].last + 1) if resp else f
+                if sdef["iso"] == RC or st.get("idx_for_ru"):
+                    idx = log.kafka_index(f, end + st.get("uextra", 0))
+                    random.Random(st.get("perm", 0)).shuffle(idx)
+                else:
+                    idx = None
+                cuts.append((st["k"], idx))
+                f = end
+            sq.append((sdef["iso"], sdef["f"], cuts))
         coq_entries.append((ops, cases, sq))
-    nsh = max(1, min(common.NPROC, (len(coq_entries) + 24) // 25))
+    nsh = max(1, min(common.NPROC, (len(coq_entries) + 24) // 25), (len(coq_entries) + 149) // 150)
     shards = [coq_entries[i::nsh] for i in range(nsh)]
     model = [None] * len(coq_entries)
-    coq_ok = ok_t and ok_p
+    ok_t, ok_p, coq_ok = fut_proofs.result()
+    model_runs = coq_ok
     coq_detail = "" if coq_ok else "model not built"
+    def coq_batch(b):
+        return (f"mkbatch {coq_Z(b['base'])} {coq_Z(b['last'])} {coq_Z(b['pid'])} {coq_bool(b['txn'])} "
+                f"{coq_bool(b['ctl'])} " + coq_list(b["recs"], lambda r: f"mkrec {coq_Z(r[0])} {coq_Z(r[1])}"))
+
+    NW = 8
+    wsh = [wild[i::NW] for i in range(NW)]
+    wild_bodies = [COQ_PRELUDE + "Eval vm_compute in (map (fun c : iso * Z * list (Z * Z) * list batch => "
+                   "let '(i, f, idx, bs) := c in out3 (unpack i f idx bs)) "
+                   + coq_list(sh, lambda w: f"({coq_iso(w['iso'])}, {coq_Z(w['f'])}, {coq_idx(w['idx'])}, "
+                              + coq_list(w["batches"], coq_batch) + ")") + ").\n" for sh in wsh]
+    consume_body = ("Definition cs : list (list (Z * Z) * Z) := "
+                    + coq_list(consume_cases, lambda c: f"({coq_idx(c['q'])}, {coq_Z(c['o'])})") + ".\n"
+                    "Eval vm_compute in (map (fun c => let q := sort_by_first (fst c) in (q, ConsumeAborted.post (snd c) q, "
+                    "match ConsumeAborted.py (snd c) q with Ok _ => true | Exn _ => false end)) cs).\n")
+    wild_outs = consume_out = None
     if coq_ok:
-        outs = ck.coq_eval_sharded("c08_cases", ["Imp", "ConsumeAborted", "C08_Log"],
-                                   [coq_body(sh) for sh in shards], timeout=1500)
+        outs_all = ck.coq_eval_sharded("c08_cases", ["Imp", "ConsumeAborted", "C08_Log"],
+                                       [coq_body(sh) for sh in shards] + wild_bodies + [consume_body],
+                                       timeout=1500)
+        outs = outs_all[:len(shards)]
+        wild_outs = outs_all[len(shards):len(shards) + NW]
+        consume_out = outs_all[-1]
         for i, (okc, outc) in enumerate(outs):
             if not okc:
                 coq_ok = False
@@ -447,13 +531,20 @@ def run(ck: Check):
             for j in range(len(shards[i])):
                 model[i + j * nsh] = vals[3 * j: 3 * j + 3]
 
+    ck.log(f"model evaluated inside Coq ok={coq_ok}  [{time.time() - ck.t0:.1f}s]")
+    results = fut_real.result()
+    pool.shutdown()
+    real_main = results["pure-python"]
     # ---- compare: correspondence (real vs model) and monitor (real vs reference)
     stats = {"resp_batches": 0, "resp_ctl": 0, "mid_batch_start": 0}
     n_cases = n_steps = 0
     corr_bad = []
     twin_bad = []
-    viol = 0
+    found = []              # (size of the log, what, replay, signature)
     variant_bad = []
+
+    def report(what, rp):
+        found.append((len(rp["ops"]), len(json.dumps(rp["ops"])), what, rp, sig_of(what)))
     for li, ((ops, log, cases, seqs, exh), lo) in enumerate(zip(entries, real_main["logs"])):
         whole_raw = b"".join(b.raw for b in log.batches)
         mv = model[li]
@@ -469,14 +560,12 @@ def run(ck: Check):
             ck.count(key=(json.dumps(ops), case["iso"], case["f"], case["k"], json.dumps(case["idx"])),
                      nontrivial=nontrivial_case(log, case["iso"], case["f"], resp),
                      sample={"ops": ops, "case": case, "delivered_offsets": [r[0] for r in real["out"]],
-                             "next_fetch_offset": real["nfo"]} if (li % 97 == 5 and ci == 0) else None)
+                             "next_fetch_offset": real["nfo"]} if (li % 41 == 3 and case["iso"] == RC and len(real["out"]) >= 2
+                                                                   and len(resp) >= 4) else None)
             for b in bad:
-                viol += 1
-                if viol <= 12:
-                    ck.violation(b, {"kind": "fetch", "ops": ops, "case": case, "lso": log.lso, "hw": log.hw,
-                                     "response_batches": [log.batches[i].to_json() for i in resp],
-                                     "real": real, "expected": want, "expected_next_fetch_offset": end},
-                                 signature=sig_of(b))
+                report(b, {"kind": "fetch", "ops": ops, "case": case, "lso": log.lso, "hw": log.hw,
+                           "response_batches": [log.batches[i].to_json() for i in resp],
+                           "real": real, "expected": want, "expected_next_fetch_offset": end})
             if mv is not None:
                 m_out, m_nfo, m_raised = mv[1][ci]
                 m_wire = model_to_wire(m_out)
@@ -502,11 +591,8 @@ def run(ck: Check):
                 ck.count(key=(json.dumps(ops), iso, st["f"], st["k"], json.dumps(st["idx"]), "seq"),
                          nontrivial=nontrivial_case(log, iso, st["f"], resp))
                 for b in bad:
-                    viol += 1
-                    if viol <= 12:
-                        ck.violation(b, {"kind": "fetch-in-sequence", "ops": ops, "case": case, "lso": log.lso,
-                                         "hw": log.hw, "real": st, "expected": want,
-                                         "expected_next_fetch_offset": end}, signature=sig_of(b))
+                    report(b, {"kind": "fetch-in-sequence", "ops": ops, "case": case, "lso": log.lso,
+                               "hw": log.hw, "real": st, "expected": want, "expected_next_fetch_offset": end})
                 all_out += st["out"]
             # cut invariance on the real outputs: the sequence delivers what one response holding
             # everything from f0 up to the position reached would deliver
@@ -516,22 +602,14 @@ def run(ck: Check):
             one_big = [[o, None if k_ is None else k_.hex(), None if v_ is None else v_.hex()]
                        for (o, k_, v_) in c08_ref.ref_view(whole_raw, big_raw, iso, f0, log.lso, log.hw)]
             if all_out != one_big or any(st["exc"] for st in steps):
-                viol += 1
-                if viol <= 12:
-                    msg = "a sequence of cuts delivers something else than one big response"
-                    ck.violation(msg, {"kind": "sequence", "ops": ops, "iso": iso, "f": f0, "steps": steps,
-                                       "seqdef": sdef,
-                                       "delivered_offsets": [r[0] for r in all_out],
-                                       "one_big_response_offsets": [r[0] for r in one_big]},
-                                 signature=sig_of(msg))
+                report("a sequence of cuts delivers something else than one big response",
+                       {"kind": "sequence", "ops": ops, "iso": iso, "f": f0, "steps": steps, "seqdef": sdef,
+                        "delivered_offsets": [r[0] for r in all_out],
+                        "one_big_response_offsets": [r[0] for r in one_big]})
             reached_end = steps and steps[-1]["nfo"] is not None and not log.response(log.bound(iso), steps[-1]["nfo"], 1)
             if steps and not reached_end and all(st["exc"] is None for st in steps):
-                viol += 1
-                if viol <= 12:
-                    msg = "the consumer did not get through the log in #batches+2 non-empty fetches (stalled)"
-                    ck.violation(msg, {"kind": "stall", "ops": ops, "iso": iso, "f": f0, "steps": steps,
-                                       "seqdef": sdef},
-                                 signature=sig_of(msg))
+                report("the consumer did not get through the log in #batches+2 non-empty fetches (stalled)",
+                       {"kind": "stall", "ops": ops, "iso": iso, "f": f0, "steps": steps, "seqdef": sdef})
             if mv is not None:
                 m_out, m_nfo, m_raised = mv[2][si]
                 same = (model_to_wire(m_out) == all_out and m_nfo == last_f
@@ -543,8 +621,24 @@ def run(ck: Check):
             for name, res in results.items():
                 if name != "pure-python" and res["logs"][li]["seqs"][si] != steps:
                     variant_bad.append((name, ops, sdef))
+    # report the smallest failing logs: first one per distinct signature, then the next smallest
+    viol = len(found)
+    found.sort(key=lambda t: (t[0], t[1]))
+    chosen, seen = [], set()
+    for t in found:
+        if t[4] not in seen:
+            seen.add(t[4])
+            chosen.append(t)
+    for t in found:
+        if len(chosen) >= 12:
+            break
+        if not any(t is c for c in chosen):
+            chosen.append(t)
+    for (_n, _m, what, rp, sg) in chosen[:12]:
+        ck.violation(what, rp, signature=sg)
+    ck.extra["monitor_failures"] = viol
     ck.extra["fetches"] = {"single": n_cases, "sequence_steps": n_steps, **stats}
-    ck.log(f"{len(entries)} logs, {n_cases} single fetches, {n_steps} sequence steps, "
+    ck.log(f"[{time.time() - ck.t0:.1f}s] {len(entries)} logs, {n_cases} single fetches, {n_steps} sequence steps, "
            f"{viol} monitor failure(s), {len(corr_bad)} model/real disagreement(s)")
 
     ck.obligation("correspondence:reference-log-twin-vs-coq-build", coq_ok and not twin_bad,
@@ -552,21 +646,47 @@ def run(ck: Check):
     ck.obligation("correspondence:unpack-model-vs-real-PartitionRecords", coq_ok and not corr_bad,
                   coq_detail or (f"{len(corr_bad)} disagreement(s); first: " + json.dumps(corr_bad[0], default=str)[:1500]
                                  if corr_bad else ""))
-    if len(results) > 1:
-        ck.obligation("correspondence:compiled-record-classes-give-the-same-results", not variant_bad,
-                      (f"{len(variant_bad)} differing case(s); first: " + json.dumps(variant_bad[0], default=str)[:800])
-                      if variant_bad else "")
     ck.extra["record_class_variants"] = list(results)
+
+    # ---- arbitrary batch lists: `unpack` vs the real iterator (fidelity of the model outside the
+    # well-formed region, incl. the KafkaError on a control batch without records)
+    w_ok = False
+    w_detail = "model not built"
+    if model_runs:
+        outs = wild_outs
+        w_ok, w_detail = True, ""
+        n_raise = 0
+        for k_, (okc, outc) in enumerate(outs):
+            if not okc:
+                w_ok, w_detail = False, outc[-500:]
+                break
+            vals = parse_coq_value(parse_eval_outputs(outc)[0]) if wsh[k_] else []
+            for j, (w, v) in enumerate(zip(wsh[k_], vals)):
+                real = real_main["wild"][k_ + NW * j]
+                m_out, m_nfo, m_raised = v
+                n_raise += 1 if m_raised else 0
+                if real.get("empty"):
+                    same = (m_out == [] and m_nfo == w["f"] and not m_raised)
+                else:
+                    same = (model_to_wire(m_out) == real["out"] and m_nfo == real["nfo"]
+                            and bool(m_raised) == (real["exc"] is not None)
+                            and (real["exc"] is None or real["exc"].startswith("KafkaError")))
+                for name, res in results.items():
+                    if name != "pure-python" and res["wild"][k_ + NW * j] != real:
+                        variant_bad.append((name, "wild", w))
+                if not same and w_ok:
+                    w_ok = False
+                    w_detail = json.dumps({"input": w, "model": [m_out, m_nfo, m_raised], "real": real})[:1500]
+        ck.extra["wild_cases"] = {"n": len(wild), "raising": n_raise}
+        ck.count(n=len(wild), nontrivial=False)
+    ck.obligation("correspondence:unpack-model-vs-real-on-arbitrary-batch-lists", w_ok, w_detail)
+    ck.log(f"arbitrary batch lists: ok={w_ok}  [{time.time() - ck.t0:.1f}s]")
 
     # ---- translated _consume_aborted_up_to + model of sorted() vs the real method
     tr_ok = False
     tr_detail = "model not built"
-    if ok_t and ok_p:
-        body = ("Definition cs : list (list (Z * Z) * Z) := "
-                + coq_list(consume_cases, lambda c: f"({coq_idx(c['q'])}, {coq_Z(c['o'])})") + ".\n"
-                "Eval vm_compute in (map (fun c => let q := sort_by_first (fst c) in (q, ConsumeAborted.post (snd c) q, "
-                "match ConsumeAborted.py (snd c) q with Ok _ => true | Exn _ => false end)) cs).\n")
-        okc, outc = ck.coq_eval("c08_consume", ["Imp", "ConsumeAborted", "C08_Log"], body)
+    if model_runs:
+        okc, outc = consume_out
         if okc:
             vals = parse_coq_value(parse_eval_outputs(outc)[0])
             tr_ok = True
@@ -583,6 +703,11 @@ def run(ck: Check):
     ck.obligation("correspondence:translated-consume_aborted_up_to-vs-real-method", tr_ok, tr_detail)
     ck.count(n=len(consume_cases), nontrivial=False)
     ck.extra["translator_validation_cases"] = len(consume_cases)
+    if len(results) > 1:
+        ck.obligation("correspondence:compiled-record-classes-give-the-same-results", not variant_bad,
+                      (f"{len(variant_bad)} differing case(s); first: " + json.dumps(variant_bad[0], default=str)[:800])
+                      if variant_bad else "")
+    ck.log(f"done  [{time.time() - ck.t0:.1f}s]")
 
 
 # ------------------------------------------------------------------------------------ replay
